@@ -49,6 +49,22 @@ def basis (t : Nat → Rat) (tl x : Rat) : Nat → Nat → Rat
     + (if t (i + 1) < t (i + k + 2) then
         (t (i + k + 2) - x) / (t (i + k + 2) - t (i + 1)) * basis t tl x k (i + 1) else 0)
 
+/-- where `B_{i,k}` can be non-zero: `[t_i, t_{i+k+1})`, plus the point `t[-1]` when the span ends
+    there and is not empty -/
+def InSupport (t : Nat → Rat) (tl x : Rat) (k i : Nat) : Prop :=
+  t i ≤ x ∧ (x < t (i + k + 1) ∨ (x = tl ∧ t (i + k + 1) = tl ∧ t i < tl))
+
+/-- the part of the knot range on which the basis functions `B_{a,k} … B_{b-1,k}` sum to one:
+    `[t_{a+k}, t_b)`, plus the point `t[-1]` when `t_b = t[-1]` and the range is not empty -/
+def InDomain (t : Nat → Rat) (tl x : Rat) (k a b : Nat) : Prop :=
+  t (a + k) ≤ x ∧ (x < t b ∨ (x = tl ∧ t b = tl ∧ t (a + k) < tl))
+
+instance (t : Nat → Rat) (tl x : Rat) (k i : Nat) : Decidable (InSupport t tl x k i) := by
+  unfold InSupport; exact inferInstance
+
+instance (t : Nat → Rat) (tl x : Rat) (k a b : Nat) : Decidable (InDomain t tl x k a b) := by
+  unfold InDomain; exact inferInstance
+
 /-- the recursion before commit 05a1cee: every order-0 interval half-open (finding F28) -/
 def basisLegacy (t : Nat → Rat) (x : Rat) : Nat → Nat → Rat
   | 0, i => if t i ≤ x ∧ x < t (i + 1) then 1 else 0
@@ -193,13 +209,15 @@ def reverseCallLegacy (c : RevCfg) (root : Root) (ys : List Y) : Except RevErr (
     .error .range
   else invertAll c root ys
 
-/-- contract of the root finder: what it returns is a root inside the bracket -/
-def RootSound (root : Root) : Prop :=
-  ∀ g a b r, root g a b = some r → a ≤ r ∧ r ≤ b ∧ g r = 0
+/-- contract of the root finder: what it returns lies inside the bracket and is a root up to the
+    residual tolerance `ε` (`ε = 0`: an exact root) -/
+def RootSound (ε : Rat) (root : Root) : Prop :=
+  ∀ g a b r, root g a b = some r → a ≤ r ∧ r ≤ b ∧ -ε ≤ g r ∧ g r ≤ ε
 
-/-- contract of the root finder on a sign-changing bracket (brentq on a continuous function) -/
-def RootComplete (root : Root) : Prop :=
-  ∀ g a b, a ≤ b → g a * g b ≤ 0 → (root g a b).isSome = true
+/-- contract of the root finder on the sign-changing brackets of the table `f` (brentq on a
+    continuous function): it returns something -/
+def RootCompleteFor (f : Rat → Rat) (root : Root) : Prop :=
+  ∀ q a b, a ≤ b → (f a - q) * (f b - q) ≤ 0 → (root (fun x => f x - q) a b).isSome = true
 
 /-- brentq refuses a bracket without a sign change -/
 def RootRefuses (root : Root) : Prop :=
@@ -276,6 +294,16 @@ def step (s : St) (e : Nat × Ev) : St :=
       { s with cache := some (s.current, τ, true), served := s.served ++ [(s.current, false)] }
 
 def run (s : St) (evs : List (Nat × Ev)) : St := evs.foldl step s
+
+/-- what `pre()` should hand out along a history: the fit of the data and options current at
+    that moment (specification side of `served_is_current`) -/
+def specServed (cur : FitId) : List (Nat × Ev) → List FitId
+  | [] => []
+  | (_, .editCsv d) :: r => specServed (d, cur.2) r
+  | (_, .editIni o) :: r => specServed (cur.1, some o) r
+  | (_, .delIni) :: r => specServed (cur.1, none) r
+  | (_, .corrupt) :: r => specServed cur r
+  | (_, .pre) :: r => cur :: specServed cur r
 
 /-- time stamps never go backwards and start at or after `t0` -/
 def Chrono (t0 : Nat) : List (Nat × Ev) → Prop
